@@ -44,6 +44,8 @@ type fileWeaver struct {
 	stats     map[string]int
 }
 
+var allSites []string
+
 var simosFuncs = map[string]bool{
 	"MkdirAll": true, "WriteFile": true, "Symlink": true, "Rename": true, "RemoveAll": true,
 	"Remove": true, "Readlink": true, "ReadDir": true, "Stat": true, "Lstat": true, "Mkdir": true, "ReadFile": true,
@@ -143,6 +145,9 @@ func main() {
 	}
 	js, _ := json.MarshalIndent(map[string]any{"Replace": overlay}, "", " ")
 	os.WriteFile(filepath.Join(*out, "overlay.json"), js, 0o644)
+	sort.Strings(allSites)
+	sj, _ := json.Marshal(allSites)
+	os.WriteFile(filepath.Join(*out, "sites.json"), sj, 0o644)
 	st, _ := json.MarshalIndent(total, "", " ")
 	os.WriteFile(filepath.Join(*out, "stats.json"), st, 0o644)
 }
@@ -213,7 +218,9 @@ func (w *fileWeaver) site(p token.Pos, kind string) string {
 		}
 	}
 	w.stats[kind]++
-	return fmt.Sprintf("%q", fmt.Sprintf("%s.%s:%d:%s", w.pkg.Name, fn, w.tf.Line(p), kind))
+	name := fmt.Sprintf("%s.%s:%d:%s", w.pkg.Name, fn, w.tf.Line(p), kind)
+	allSites = append(allSites, name)
+	return fmt.Sprintf("%q", name)
 }
 
 func (w *fileWeaver) weave() {
